@@ -94,6 +94,33 @@ Example c07_header_only_stream_example :
   handle_incoming_de true [1] [2] ([]%nat, firstn 3 (marshal_header [97; 98])) = Closed E_EOF.
 Proof. repeat split; vm_compute; reflexivity. Qed.
 
+(* ---- several streams on one bus ----
+   The bus merges a lookup into a live equivalent one; equivalence of
+   HandleMountedStream directives is equality of (pid, local, remote).  For any
+   list of arriving streams and lookup disposals, any live lookups at the
+   start, any chunkings: every accepted stream is served by the lookup made for
+   exactly its own protocol ID and its own link's peers, and what happens to a
+   stream does not depend on the other streams. *)
+Theorem c07_equivalence_is_equality : forall a b, triple_eqb a b = true <-> a = b.
+Proof. exact triple_eqb_spec. Qed.
+Print Assumptions c07_equivalence_is_equality.
+
+Theorem c07_dispatch_many : forall evs live, bus_run live evs = bus_spec evs.
+Proof. exact bus_run_spec. Qed.
+Print Assumptions c07_dispatch_many.
+
+Theorem c07_dispatch_many_own_triple : forall evs live,
+  Forall (fun o => match o with Served own sv _ => sv = own | _ => True end) (bus_run live evs).
+Proof. exact bus_run_served_own. Qed.
+Print Assumptions c07_dispatch_many_own_triple.
+
+Example c07_dispatch_many_example :
+  bus_run [([97], [1], [2])]
+    [Arrive false [1] [3] ([]%nat, marshal_header [97] ++ [7]); Arrive true [1] [2] ([1]%nat, marshal_header [97]);
+     Expire ([97], [1], [3]); Arrive false [1] [3] ([]%nat, [0; 0; 0; 0])] =
+  [Served ([97], [1], [3]) ([97], [1], [3]) [7]; Served ([97], [1], [2]) ([97], [1], [2]) []; Rejected E_LEN].
+Proof. vm_compute. reflexivity. Qed.
+
 (* non-vacuity *)
 Example c07_pid_ok_example : pid_ok [47; 195; 169; 240; 159; 152; 128] /\ ~ pid_ok [] /\ ~ pid_ok [237; 160; 128].
 Proof. repeat split; try discriminate; intros [A B]; [congruence|discriminate]. Qed.
